@@ -73,6 +73,10 @@ func gets(c util.Container, tags map[int]bool, pfx string) string {
 	var sb strings.Builder
 	for _, t := range ts {
 		fmt.Fprintf(&sb, " %s%d=%s/%d", pfx, t, hx(c.GetBytes(byte(t))), c.GetByte(byte(t)))
+		if str := c.GetString(byte(t)); str != string(c.GetBytes(byte(t))) {
+			// GetString is the same bytes as a string (user names, identifiers): reported only when it is not
+			fmt.Fprintf(&sb, "/str:%s", hx([]byte(str)))
+		}
 	}
 	return sb.String()
 }
